@@ -9,7 +9,7 @@ theorem closed_CheckReady : ∃ body m, prog Fn.CheckReady = some body ∧ (chec
   ⟨f_CheckReady, checkFuel, rfl, by decide +kernel⟩
 
 set_option maxHeartbeats 100000000 in
-theorem closed_GetStakingHistory : ∃ body m, prog Fn.GetStakingHistory = some body ∧ (check prog exports imports closed m [] body).isSome = true :=
+theorem closed_GetStakingHistory : ∃ body m, prog Fn.GetStakingHistory_wallet = some body ∧ (check prog exports imports closed m [] body).isSome = true :=
   ⟨f_GetStakingHistory, checkFuel, rfl, by decide +kernel⟩
 
 set_option maxHeartbeats 100000000 in
@@ -45,7 +45,7 @@ theorem closed_prepareFromAddresses : ∃ body m, prog Fn.prepareFromAddresses =
   ⟨f_prepareFromAddresses, checkFuel, rfl, by decide +kernel⟩
 
 set_option maxHeartbeats 100000000 in
-theorem safe_CreateRawTransaction_api : safe prog exports imports closed checkFuel (.invoke Fn.CreateRawTransaction_api) = true := by decide +kernel
+theorem safe_CreateRawTransaction_api : safe prog exports imports closed checkFuel (.invoke Fn.CreateRawTransaction_tx_service) = true := by decide +kernel
 
 set_option maxHeartbeats 100000000 in
 theorem safe_NewNtfnsHandler : safe prog exports imports closed checkFuel (.invoke Fn.NewNtfnsHandler) = true := by decide +kernel
